@@ -150,18 +150,39 @@ fn now_ms() -> u64 {
     SystemTime::now().duration_since(UNIX_EPOCH).map(|d| d.as_millis() as u64).unwrap_or(0)
 }
 
+/// CPU time consumed by this process so far, in ms (utime + stime from /proc/self/stat; 0 if unavailable).
+fn cpu_ms() -> u64 {
+    let Ok(s) = std::fs::read_to_string("/proc/self/stat") else { return 0 };
+    let Some(rest) = s.rsplit(')').next() else { return 0 };
+    let f: Vec<&str> = rest.split_whitespace().collect();
+    // after the command name: state is f[0], utime is field 14 overall => f[11], stime => f[12]
+    let ut: u64 = f.get(11).and_then(|x| x.parse().ok()).unwrap_or(0);
+    let st: u64 = f.get(12).and_then(|x| x.parse().ok()).unwrap_or(0);
+    (ut + st) * 10
+}
+
 pub fn start_watchdog() {
+    // The limit is on CPU time consumed during the run (a starved machine must not look like a hang);
+    // wall-clock time is only a distant backstop for runs that block without consuming CPU.
     let limit_ms: u64 = std::env::var("CCSIM_RUN_TIMEOUT_MS").ok().and_then(|s| s.parse().ok()).unwrap_or(20_000);
     std::thread::Builder::new()
         .name("watchdog".into())
-        .spawn(move || loop {
+        .spawn(move || {
+            let mut seen_start = 0u64;
+            let mut cpu_at_start = 0u64;
+            loop {
             std::thread::sleep(std::time::Duration::from_millis(500));
             let st = RUN_STARTED_MS.load(std::sync::atomic::Ordering::Relaxed);
-            if st != 0 && now_ms().saturating_sub(st) > limit_ms {
-                println!("@@VIOLATION property=C06 oracle=O-TERM.hang op=? msg=a single run did not finish within {} ms of wall-clock time (non-termination or livelock)", limit_ms);
+            if st != seen_start {
+                seen_start = st;
+                cpu_at_start = cpu_ms();
+            }
+            if st != 0 && (cpu_ms().saturating_sub(cpu_at_start) > limit_ms || now_ms().saturating_sub(st) > limit_ms * 60) {
+                println!("@@VIOLATION property=C06 oracle=O-TERM.hang op=? msg=a single run did not finish within {} ms of CPU time (non-termination or livelock)", limit_ms);
                 use std::io::Write;
                 let _ = std::io::stdout().flush();
                 std::process::exit(3);
+            }
             }
         })
         .expect("watchdog");
